@@ -3,8 +3,22 @@ import numpy as _np
 import numba as _nb
 import time as _time
 import logging as _logging
+import os as _os
 
 logger = _logging.getLogger(__name__)
+
+# Verification hook (off unless SCARED_VERIF=1): lets a test harness force and record the accumulation kernel choice.
+_VERIF_HOOKS = _os.environ.get('SCARED_VERIF') == '1'
+
+
+def _verif_select_kernel(obj, function_idx):
+    forced = getattr(obj, '_verif_force_kernel', None)
+    if forced:
+        function_idx = forced.pop(0)
+    if not hasattr(obj, '_verif_kernel_log'):
+        obj._verif_kernel_log = []
+    obj._verif_kernel_log.append(int(function_idx))
+    return function_idx
 
 
 class _PartitionnedDistinguisherBaseMixin(DistinguisherMixin):
@@ -119,6 +133,8 @@ class PartitionedDistinguisherMixin(_PartitionnedDistinguisherBaseMixin):
             if not hasattr(self, '_timings'):
                 self._timings = [-2, -1]
             function_idx = _np.argmin(self._timings)
+            if _VERIF_HOOKS:
+                function_idx = _verif_select_kernel(self, function_idx)
             function = [self._accumulate_core_1, self._accumulate_core_2][function_idx]
             t0 = _time.process_time()
             function(traces, data, self.sum, self.sum_square, self.counters, self.precision)
